@@ -88,6 +88,17 @@ def generate():
         body += "/-- every sink write and every error report of the worker thread is lexically inside `with <queue lock>` -/\n"
         body += "def workerOutputUnderLock : Bool := %s\n\n" % (
             "true" if all(any(c is l for l in locked) for c in all_out) else "false")
+        # C03 no loss at interpreter exit: loguru/__init__.py registers logger.remove with atexit at module level,
+        # outside every condition (whether or not the default handler was installed)
+        itree, _ = parse_module("__init__.py")
+        top = [n for n in itree.body if isinstance(n, ast.Expr) and isinstance(n.value, ast.Call)
+               and ast.unparse(n.value.func).endswith("atexit.register") and
+               [ast.unparse(a) for a in n.value.args] == ["logger.remove"]]
+        nested = [n for n in ast.walk(itree) if isinstance(n, ast.Call) and ast.unparse(n.func).endswith("atexit.register")]
+        if not nested:
+            raise Unsupported("loguru/__init__.py no longer registers anything with atexit")
+        body += "/-- `atexit.register(logger.remove)` is a top-level statement of loguru/__init__.py -/\n"
+        body += "def atexitRemoveUnconditional : Bool := %s\n\n" % ("true" if len(top) == 1 and len(nested) == 1 else "false")
         # what travels through the queue is the formatted text with its record attached; the only part of a record
         # loguru itself makes picklable is the exception (RecordException.__reduce__ / _from_pickled_value)
         rtree, _ = parse_module("_recattrs.py")
@@ -111,4 +122,4 @@ def generate():
     except (Unsupported, SyntaxError, KeyError, AttributeError, IndexError) as e:
         errors.append("%s: %s" % (type(e).__name__, e))
     body += "\nend Queue.ShapeGen\n"
-    return emit("QueueShape", body, ["loguru/_handler.py", "loguru/_recattrs.py"], errors)
+    return emit("QueueShape", body, ["loguru/_handler.py", "loguru/_recattrs.py", "loguru/__init__.py"], errors)
